@@ -58,6 +58,9 @@ type Sim struct {
 	faultsOff  atomic.Bool
 	deadLabels map[string]bool
 	expectLeak bool
+	crashed    atomic.Bool   // the whole simulated process has crashed: nothing of it may run on
+	never      chan struct{} // never closed; created inside the current bubble
+	elapsed    time.Duration // simulated time consumed by earlier phases (bubbles)
 
 	step     int
 	maxSteps int
@@ -93,7 +96,7 @@ type Sim struct {
 }
 
 // Now returns simulated time elapsed since the start of the run.
-func (s *Sim) Now() time.Duration { return time.Since(s.start) }
+func (s *Sim) Now() time.Duration { return s.elapsed + time.Since(s.start) }
 
 // Step returns the number of scheduler steps taken.
 func (s *Sim) Step() int { return s.step }
@@ -277,11 +280,12 @@ func curGID() int64 {
 // environment-visible action.
 func (s *Sim) Go(label string, fn func()) {
 	s.actors.Add(1)
+	wake := s.wake
 	go func() {
 		defer func() {
 			s.actors.Add(-1)
 			select {
-			case s.wake <- struct{}{}:
+			case wake <- struct{}{}:
 			default:
 			}
 		}()
@@ -328,6 +332,9 @@ func LabelFromStack(table []StackLabel) string {
 // Gate parks the calling goroutine until the scheduler releases it. With an
 // empty label the actor label of the calling goroutine is used.
 func (s *Sim) Gate(label, key string) {
+	if s.crashed.Load() {
+		s.ParkForever()
+	}
 	if s.pass.Load() {
 		return
 	}
@@ -351,6 +358,29 @@ func (s *Sim) Gate(label, key string) {
 	default:
 	}
 	<-g.release
+}
+
+// Crash freezes the whole simulated process from now on: every goroutine that
+// reaches a gate or a hook that consults Crashed parks forever, nothing parked
+// is ever released. The phase function must return right afterwards; RunPhases
+// then lets the bubble run down (timers fire, goroutines run into their next
+// gate and stay there) and starts the next phase in a fresh bubble. Only what
+// is on disk - and whatever else the engine treats as durable - survives.
+func (s *Sim) Crash() {
+	s.crashed.Store(true)
+	s.mu.Lock()
+	s.expectLeak = true
+	s.mu.Unlock()
+	s.Count("fault.crash", 1)
+	s.appendJournal(fmt.Sprintf("sched: CRASH at step %d", s.step))
+}
+
+// Crashed reports whether Crash was called in this phase.
+func (s *Sim) Crashed() bool { return s.crashed.Load() }
+
+// ParkForever blocks the calling goroutine for good (durably, in synctest terms).
+func (s *Sim) ParkForever() {
+	<-s.never
 }
 
 // Kill marks a label as crashed: its parked and future gates are never
@@ -655,6 +685,19 @@ func DeadlockSite(first, second string) string {
 
 // Run executes body inside a fresh synctest bubble and collects the result.
 func Run(t *testing.T, plan *Plan, opt Options, body func(s *Sim)) *Result {
+	return RunPhases(t, plan, opt, func(s *Sim, phase int) bool {
+		body(s)
+		return false
+	})
+}
+
+// RunPhases executes one run as a sequence of phases, each in its own synctest
+// bubble, over one Sim (journal, counters, schedule vector and plan carry over).
+// A phase function returns true to ask for another phase; it does so after
+// calling Crash, which models the crash of the whole simulated process: the
+// goroutines of that phase stay frozen in their (abandoned) bubble for good and
+// the next phase starts from durable state only, with a fresh fake clock.
+func RunPhases(t *testing.T, plan *Plan, opt Options, body func(s *Sim, phase int) bool) *Result {
 	if opt.MaxSteps == 0 {
 		opt.MaxSteps = 4000
 	}
@@ -687,45 +730,69 @@ func Run(t *testing.T, plan *Plan, opt Options, body func(s *Sim)) *Result {
 		os.Exit(3)
 	})
 	defer watchdog.Stop()
-	func() {
-		defer func() {
-			if r := recover(); r != nil {
-				msg := fmt.Sprint(r)
-				if s != nil && s.expectLeak && strings.Contains(msg, "deadlock: main bubble goroutine has exited") {
-					return
+	for phase, again := 0, true; again && res.Trouble == ""; phase++ {
+		again = false
+		func() {
+			defer func() {
+				if r := recover(); r != nil {
+					msg := fmt.Sprint(r)
+					if s != nil && s.expectLeak && strings.Contains(msg, "deadlock: main bubble goroutine has exited") {
+						return
+					}
+					buf := make([]byte, 1<<20)
+					n := runtime.Stack(buf, strings.Contains(msg, "deadlock"))
+					res.Trouble = "panic: " + msg + "\n" + string(buf[:n])
+					again = false
 				}
-				buf := make([]byte, 1<<20)
-				n := runtime.Stack(buf, strings.Contains(msg, "deadlock"))
-				res.Trouble = "panic: " + msg + "\n" + string(buf[:n])
-			}
+			}()
+			synctest.Test(t, func(t *testing.T) {
+				if s == nil {
+					s = &Sim{
+						T: t, Plan: plan,
+						deadLabels: map[string]bool{},
+						maxSteps:   opt.MaxSteps,
+						horizon:    opt.Horizon,
+						sticky:     int(plan.C("sched_sticky")),
+						stall:      int(plan.C("sched_stall")),
+						schedRng:   NewRand(plan.Seed, 0x5c4ed),
+						jcap:       opt.JournalCap,
+						counters:   map[string]int64{},
+						occur:      map[string]int{},
+					}
+				} else {
+					// A new incarnation: everything of the previous bubble is
+					// abandoned (its parked goroutines stay where they are).
+					s.mu.Lock()
+					s.T = t
+					s.parked = nil
+					s.deadLabels = map[string]bool{}
+					s.mu.Unlock()
+					s.elapsed += s.simElapsed
+					s.actors.Store(0)
+					s.crashed.Store(false)
+					s.pass.Store(false)
+					s.last = ""
+				}
+				// Everything the scheduler selects on is created inside the bubble.
+				s.wake = make(chan struct{}, 1)
+				s.never = make(chan struct{})
+				s.start = time.Now()
+				again = body(s, phase)
+				s.simElapsed = time.Since(s.start)
+				if !s.crashed.Load() {
+					s.Finish()
+					s.simElapsed = time.Since(s.start)
+				}
+			})
 		}()
-		synctest.Test(t, func(t *testing.T) {
-			s = &Sim{
-				T: t, Plan: plan,
-				wake:       make(chan struct{}, 1),
-				deadLabels: map[string]bool{},
-				maxSteps:   opt.MaxSteps,
-				horizon:    opt.Horizon,
-				start:      time.Now(),
-				sticky:     int(plan.C("sched_sticky")),
-				stall:      int(plan.C("sched_stall")),
-				schedRng:   NewRand(plan.Seed, 0x5c4ed),
-				jcap:       opt.JournalCap,
-				counters:   map[string]int64{},
-				occur:      map[string]int{},
-			}
-			body(s)
-			s.Finish()
-			s.simElapsed = s.Now()
-		})
-	}()
+	}
 	if s != nil {
 		s.mu.Lock()
 		res.Violations = append(res.Violations, s.viol...)
 		res.Counters = s.counters
 		s.mu.Unlock()
 		res.Steps = s.step
-		res.SimNanos = int64(s.simElapsed)
+		res.SimNanos = int64(s.elapsed + s.simElapsed)
 		s.flushSched()
 		res.JournalTail = s.journal
 		res.JournalHash = hex.EncodeToString(s.jhash[:8])
